@@ -174,14 +174,20 @@ type Walker struct {
 	trackFields bool
 	lvalue      bool
 	selfUpdated map[string]bool
+	// inlineHelpers: single-caller private helpers are walked inline (used by exit-based rules so that extracting a
+	// helper does not change what a rule sees)
+	inlineHelpers bool
+	// rec: private site recorder (nil = the analysis-wide table)
+	rec *Analysis
 }
 
 type inlineCtx struct {
 	rets []inlRet
 }
 type inlRet struct {
-	st   *State
-	expr ast.Expr // single result expression (may be nil)
+	st    *State
+	expr  ast.Expr   // single result expression (may be nil)
+	exprs []ast.Expr // all result expressions
 }
 
 type evalRes struct {
@@ -206,7 +212,12 @@ func (a *Analysis) walkFunc(fn *FuncInfo, init *State, record bool) []*State {
 }
 
 func (a *Analysis) walkFuncOpt(fn *FuncInfo, init *State, record, trackFields bool) []*State {
-	w := &Walker{A: a, Fn: fn, info: fn.Pkg.TypesInfo, record: record, budget: 200000, trackFields: trackFields}
+	return a.walkFuncFull(fn, init, record, trackFields, false, nil)
+}
+
+// walkFuncFull: inline=true walks single-caller helpers inline; rec (optional) receives the recorded sites.
+func (a *Analysis) walkFuncFull(fn *FuncInfo, init *State, record, trackFields, inline bool, rec *Analysis) []*State {
+	w := &Walker{A: a, Fn: fn, info: fn.Pkg.TypesInfo, record: record, budget: 200000, trackFields: trackFields, inlineHelpers: inline, rec: rec}
 	st := init
 	// bind receiver / params
 	a.bindParams(fn, st)
@@ -392,7 +403,7 @@ func (w *Walker) stmt(s ast.Stmt, in []*State) []*State {
 				if len(s.Results) == 1 {
 					e = s.Results[0]
 				}
-				w.inl.rets = append(w.inl.rets, inlRet{st, e})
+				w.inl.rets = append(w.inl.rets, inlRet{st, e, s.Results})
 				continue
 			}
 			sts := []evalRes{{st, nil}}
@@ -877,7 +888,7 @@ func (w *Walker) write(loc string, kind int, idx, val *Term, st *State, at ast.N
 		return
 	}
 	if w.record {
-		site := w.A.siteFor(w.Fn, at, "write", "", loc)
+		site := w.recA().siteFor(w.Fn, at, "write", "", loc)
 		site.Store |= kind
 		w.A.snap(site, st, nil, nil, val, idx)
 	}
@@ -1236,7 +1247,7 @@ func (w *Walker) inlinePredicate(call *ast.CallExpr, fn *FuncInfo, st *State) (t
 	if w.record {
 		recvs, args, sts := w.evalCallOperands(call, st.clone())
 		for i, s := range sts {
-			site := w.A.siteFor(w.Fn, call, "call", "fn:"+fn.Name, "")
+			site := w.recA().siteFor(w.Fn, call, "call", "fn:"+fn.Name, "")
 			site.Target = fn
 			site.Call = call
 			w.A.snap(site, s, recvs[i], args[i], nil, nil)
@@ -1691,7 +1702,7 @@ func (w *Walker) indexSite(n ast.Node, base, idx *Term, st *State) {
 	if !w.record || base == nil || base.K != KField {
 		return
 	}
-	site := w.A.siteFor(w.Fn, n, "index", "", base.Name)
+	site := w.recA().siteFor(w.Fn, n, "index", "", base.Name)
 	w.A.snap(site, st, nil, nil, nil, idx)
 }
 
@@ -1714,7 +1725,7 @@ func (w *Walker) siteExt(n ast.Node, callee string, st *State, recv *Term, args 
 	if !w.record {
 		return
 	}
-	site := w.A.siteFor(w.Fn, n, "call", callee, "")
+	site := w.recA().siteFor(w.Fn, n, "call", callee, "")
 	w.A.snap(site, st, recv, args, nil, nil)
 }
 
@@ -1807,4 +1818,12 @@ func (w *Walker) typeSwitch(s *ast.TypeSwitchStmt, in []*State) []*State {
 		out = append(out, w.stmts(cc.Body, sts)...)
 	}
 	return out
+}
+
+// recA: where recorded sites go.
+func (w *Walker) recA() *Analysis {
+	if w.rec != nil {
+		return w.rec
+	}
+	return w.A
 }
